@@ -279,6 +279,8 @@ class Compu:
             return i
         if self.cat == "LINEAR":
             sc = self.m["i2p"]["scales"][0]
+            if isinstance(i, float) and (math.isnan(i) or math.isinf(i)):
+                raise Skip("non-finite internal value")
             if not _lim_ok(i, sc.get("lo"), sc.get("hi")):
                 raise Invalid(f"internal value {i} outside the compu scale")
             n0, n1 = (list(sc["num"]) + [0])[:2]
